@@ -1101,7 +1101,9 @@ def _rtf_contracts(reg):
 # ============================================================ ODS typed cell values ==
 ODSX = "sharepoint2text/parsing/extractors/open_office/ods_extractor.py"
 ODS_OFFICE = "{urn:oasis:names:tc:opendocument:xmlns:office:1.0}"
-ODS_NUM_LITERALS = ("3", "2.5", "0", "-4.0", "1250.75", "0.5")
+# the lexical space of xsd:double (ODF office:value): optional sign, digits with or without a fraction point, optional exponent
+# (LibreOffice writes large / small magnitudes as 1E+020, 5E-05); one literal per combination of {sign, point, exponent, integral}
+ODS_NUM_LITERALS = ("3", "2.5", "0", "-4.0", "1250.75", "0.5", "1E+020", "5E-05", "1e3", "-25E-2", "1.5E+3", "2.5e-1", "+7", "12.")
 ODS_CELLS = {}       # term id of the cell -> (kind, value V)
 
 
